@@ -39,48 +39,54 @@ def strMask : Bytes → List Bool
   | [] => []
   | b :: bs => if b = 0 then true :: List.replicate bs.length false else true :: strMask bs
 
+/-- `bs.length < n`, looking at no more than `n` cells (whole files travel through `run`) -/
+def short : Nat → Bytes → Bool
+  | 0, _ => false
+  | _+1, [] => true
+  | n+1, _ :: bs => short n bs
+
 def run : D α → Bytes → Option (α × Bytes)
   | .pure a, bs => some (a, bs)
   | .fail, _ => none
-  | .take n k, bs => if bs.length < n then none else (k (bs.take n)).run (bs.drop n)
-  | .skip n k, bs => if bs.length < n then none else k.run (bs.drop n)
-  | .str n k, bs => if bs.length < n then none else (k (cutNul (bs.take n))).run (bs.drop n)
+  | .take n k, bs => if short n bs then none else (k (bs.take n)).run (bs.drop n)
+  | .skip n k, bs => if short n bs then none else k.run (bs.drop n)
+  | .str n k, bs => if short n bs then none else (k (cutNul (bs.take n))).run (bs.drop n)
 
 /-- instrumented interpreter: also returns, for every consumed byte, whether it was looked at -/
 def runM : D α → Bytes → Option (α × List Bool × Bytes)
   | .pure a, bs => some (a, [], bs)
   | .fail, _ => none
   | .take n k, bs =>
-      if bs.length < n then none else
+      if short n bs then none else
       match (k (bs.take n)).runM (bs.drop n) with
       | none => none
       | some (a, m, r) => some (a, List.replicate n true ++ m, r)
   | .skip n k, bs =>
-      if bs.length < n then none else
+      if short n bs then none else
       match k.runM (bs.drop n) with
       | none => none
       | some (a, m, r) => some (a, List.replicate n false ++ m, r)
   | .str n k, bs =>
-      if bs.length < n then none else
+      if short n bs then none else
       match (k (cutNul (bs.take n))).runM (bs.drop n) with
       | none => none
       | some (a, m, r) => some (a, strMask (bs.take n) ++ m, r)
 
+/-- `n` repetitions of `p`, in continuation-passing form so that running it is linear
+    (left-nested binds of a free monad are quadratic) -/
+def repK : Nat → D α → (List α → D β) → D β
+  | 0, _, k => k []
+  | n+1, p, k => p.bind (fun a => repK n p (fun as => k (a :: as)))
+
 /-- `n` repetitions of `p` -/
-def rep : Nat → D α → D (List α)
-  | 0, _ => pure []
-  | n+1, p => do
-    let a ← p
-    let as ← rep n p
-    pure (a :: as)
+def rep (n : Nat) (p : D α) : D (List α) := repK n p D.pure
+
+def forK : List γ → (γ → D α) → (List α → D β) → D β
+  | [], _, k => k []
+  | b :: bs, f, k => (f b).bind (fun a => forK bs f (fun as => k (a :: as)))
 
 /-- run `f` over a list of arguments, left to right -/
-def forM' : List β → (β → D α) → D (List α)
-  | [], _ => pure []
-  | b :: bs, f => do
-    let a ← f b
-    let as ← forM' bs f
-    pure (a :: as)
+def forM' (bs : List γ) (f : γ → D α) : D (List α) := forK bs f D.pure
 
 def guard (c : Bool) : D Unit := if c then pure () else .fail
 
